@@ -244,6 +244,7 @@ type runner struct {
 	vm                         *goja.Runtime
 	w                          *esmodel.World
 	doOp, doMethod, dump, bulk goja.Callable
+	checkLast                  goja.Callable
 }
 
 func callStr(f goja.Callable, args ...goja.Value) (s string, err error) {
@@ -274,6 +275,7 @@ func setup(c *Case) (*runner, *evid.Failure) {
 	r := &runner{vm: vm, w: esmodel.NewWorld()}
 	get := func(name string) goja.Callable { f, _ := goja.AssertFunction(vm.Get(name)); return f }
 	r.doOp, r.doMethod, r.dump, r.bulk = get("doOpS"), get("doMethodS"), get("dump"), get("bulkFill")
+	r.checkLast = get("checkLastResult")
 	mk, dj, fs := get("mkArr"), get("dumpJSON"), get("forceSparse")
 	for i := 0; i < 2; i++ {
 		r.w.Funcs[900+i] = &esmodel.Func{Getter: true, Ret: esmodel.Str("g" + strconv.Itoa(i)), Name: "G" + strconv.Itoa(i)}
@@ -407,6 +409,12 @@ func judge(c *Case) (f *evid.Failure, executed int, kindChanged bool, nearNonCon
 					gotA = got
 				} else {
 					gotB = got
+				}
+				// an array the method returned must be indistinguishable from one with the same elements built by
+				// plain assignment (no model involved)
+				if diff, err := callStr(r.checkLast); err == nil && diff != "" {
+					evid.Count("result-twin-checked")
+					return fail(i, "result-twin:"+st.Name, diff), i, kindChanged, nearNonConfig
 				}
 			}
 			if gotA == "unsupported" {
